@@ -52,6 +52,12 @@ type UDPClientEnd struct {
 	front     int
 	rear      int
 	MaxPacket int
+	// ForgeBefore, when set, sees every packed datagram before it is sent; what it returns
+	// (if anything) is sent to the relay from the same socket first: an on-path attacker who
+	// gets a tampered copy in ahead of the genuine packet.
+	ForgeBefore func(pkt []byte) []byte
+
+	relayOverride bool // send to Relay rather than to the address the packer was created with
 }
 
 // NewUDPClientEnd creates a client end with a fresh socket on host h (ip: the local address to
@@ -113,6 +119,16 @@ func (c *UDPClientEnd) Rebind(h *simnet.Host, ip netip.Addr) *simnet.UDPConn {
 	return old
 }
 
+// SwitchFamily moves the client to the other address family: a new socket on the given local
+// address, and the relay is addressed at its address of that family from now on.
+func (c *UDPClientEnd) SwitchFamily(h *simnet.Host, ip netip.Addr, v6 bool) *simnet.UDPConn {
+	old := c.Sock
+	c.Sock = h.ListenUDP(ip, 0)
+	c.Relay = c.sp.RelayUDPAddr(v6)
+	c.relayOverride = true
+	return old
+}
+
 // Send packs payload for target and sends it to the relay. A pack error (payload too big) is
 // returned without sending anything.
 func (c *UDPClientEnd) Send(target conn.Addr, payload []byte) error {
@@ -125,6 +141,14 @@ func (c *UDPClientEnd) Send(target conn.Addr, payload []byte) error {
 	dst, ps, pl, err := c.pk.PackInPlace(context.Background(), b, target, c.front, len(payload))
 	if err != nil {
 		return &PackError{err}
+	}
+	if c.relayOverride {
+		dst = c.Relay
+	}
+	if c.ForgeBefore != nil {
+		if f := c.ForgeBefore(b[ps : ps+pl]); f != nil {
+			c.Sock.WriteToUDPAddrPort(f, dst)
+		}
 	}
 	_, err = c.Sock.WriteToUDPAddrPort(b[ps:ps+pl], dst)
 	return err
